@@ -1,5 +1,6 @@
 import os
 from warnings import warn
+from collections import defaultdict
 from collections.abc import Mapping
 from .. import yaml_io
 import numpy as np
@@ -8,6 +9,11 @@ from .. Error import GroupMissingDataError
 from . Group import Group, Descriptor
 from . Scheme import GroupAdditivityScheme
 from . DataDir import get_data_dir
+
+
+class _Descriptors(defaultdict):
+    """Descriptor counts of one molecule (remembers the molecule)."""
+    name = None
 
 
 class GroupLibrary(Mapping):
@@ -110,7 +116,13 @@ class GroupLibrary(Mapping):
             their number of occurence in the structure.
         """
         self.name = mol
-        return self.scheme.GetDescriptors(mol)
+        groups = self.scheme.GetDescriptors(mol)
+        # Remember which molecule these descriptors belong to, so that an
+        # estimate made from them later does not depend on what the library
+        # decomposed in between.
+        descriptors = _Descriptors(groups.default_factory, groups)
+        descriptors.name = mol
+        return descriptors
 
     def Estimate(self, groups, property_set_name):
         """Estimate set of properties for chemical.
